@@ -223,6 +223,20 @@ func TestVerifC12V1(t *testing.T) {
 		}
 		cs.Add(id, kind, nontrivial, term, descr)
 	}
+	// large pools over few priority levels (reap order inside a level, limits cutting a level)
+	nBig := vg.Scale(24, 1500)
+	for k := 0; k < nBig; k++ {
+		id := cs.NextID()
+		if !cs.Want(id) {
+			continue
+		}
+		term, descr, kind, nontrivial, ok := vg.C12BigHistory(root.Fork(uint64(1000000+k)), true, c12New, events)
+		if !ok {
+			cs.Count("skipped-equal-arrival-stamps", 1)
+			continue
+		}
+		cs.Add(id, kind, nontrivial, term, descr)
+	}
 	for k, n := range events {
 		cs.Notes = append(cs.Notes, fmt.Sprintf("%s=%d", k, n))
 	}
